@@ -1,4 +1,5 @@
 import Enc.Model.Thrift
+import Enc.Model.ThriftUnion
 import Enc.Model.ThriftAlloc
 import Enc.Spec.Thrift
 import Enc.Spec.Protobuf
@@ -98,7 +99,45 @@ def wideEnumF : Fields → Bool
      | _ => false) || hasWideEnum t || wideEnumF r
 end
 
+mutual
+/-- some union value inside designates a member that holds its zero value and shares its Go type with another member: the
+encoder's `zeroMember` cannot tell them apart and writes nothing (finding: residue of fix fb0bd25) -/
+def ambigZero : Ty → Val → Bool
+  | .ptr t, .ptr v => ambigZero t v
+  | .named _ t, v => ambigZero t v
+  | .slice t, .list vs => ambigL t vs
+  | .map _ vt, .map kvs => ambigM vt kvs
+  | .struct fs, .struct vs =>
+    (match Model.Thrift.unionPos fs 0 with
+     | none => false
+     | some u =>
+       (match Model.Thrift.Vals.get vs u with
+        | .ptr (.int k) =>
+          decide (0 ≤ k) && (Model.Thrift.zeroMember fs vs).isNone &&
+            (match Model.Thrift.tyAt fs k.toNat with
+             | some (.ptr _) => false
+             | some ut => (match Model.Thrift.zmScan ut fs vs 0 with | some l => l.contains k.toNat | none => false)
+             | none => false)
+        | _ => false)) || ambigF fs vs
+  | _, _ => false
+def ambigL (t : Ty) : Vals → Bool
+  | .nil => false
+  | .cons v r => ambigZero t v || ambigL t r
+def ambigM (t : Ty) : Vals → Bool
+  | .cons _ (.cons v r) => ambigZero t v || ambigM t r
+  | _ => false
+def ambigF : Fields → Vals → Bool
+  | .cons _ _ _ t fr, .cons v vr => ambigZero t v || ambigF fr vr
+  | _, _ => false
+end
+
+def showBytes : Res Bytes → String
+  | .ok b => "ok:" ++ toHex b
+  | .err _ => "err"
+  | .panic e => "panic:" ++ e
+
 def classes (p : Model.Thrift.Proto) (ty : Ty) (v : Val) : List String :=
+  (if ambigZero ty v then ["thriftUnionZeroAmbiguous"] else []) ++
   (if hasWideEnum ty then ["thriftEnumFieldType"] else []) ++
   (match p with | .binary _ => ["thriftBinaryTypeCodes"] | .compact => (if hasFloat ty then ["thriftCompactDoubleBE"] else []))
   ++ (if hasNegZero ty v then ["thriftNegZeroDropped"] else [])
@@ -141,8 +180,11 @@ def handle (op : String) (args : List String) : Option (String × String × Stri
     let (mp, sp) ← protoOf p
     let ty ← Ty.parse ty
     let v ← Val.parse v
-    pure ("ok:" ++ toHex (Model.Thrift.marshal mp ty v), "ok:" ++ toHex (Spec.Thrift.encode sp ty v),
-          String.intercalate "," (classes mp ty v))
+    -- the model with unions (Model/ThriftUnion.lean; = `Model.Thrift.marshal` on union-free types:
+    -- Lemmas.ThriftUnionCons.marshalU_eq_marshal); specification: `Spec.Thrift.encode`, with unions `encodeU`
+    let spec := if Model.Thrift.noUnion ty then "ok:" ++ toHex (Spec.Thrift.encode sp ty v)
+      else match Spec.Thrift.encodeU sp ty v with | some b => "ok:" ++ toHex b | none => "-"
+    pure (showBytes (Model.Thrift.marshalU mp ty v), spec, String.intercalate "," (classes mp ty v))
   | "thrift.marshalx", [p, ty, v] => do      -- values with multi-entry maps: no byte comparison, classes only
     let (mp, _) ← protoOf p
     let ty ← Ty.parse ty
@@ -152,13 +194,23 @@ def handle (op : String) (args : List String) : Option (String × String × Stri
     let (mp, _) ← protoOf p
     let ty ← Ty.parse ty
     let v ← Val.parse v
-    let b := Model.Thrift.marshal mp ty v
-    pure (showRes ty (Model.Thrift.unmarshal mp false ty b), "-", String.intercalate "," (classes mp ty v))
+    let m := match Model.Thrift.marshalU mp ty v with
+      | .ok b => showRes ty (Model.Thrift.unmarshalU mp false ty b)
+      | _ => "marshal-err"
+    pure (m, "-", String.intercalate "," (classes mp ty v))
+  | "thrift.rtm", [p, ty, v] => do      -- same as thrift.roundtrip, no Go-side oracle (improper union values)
+    let (mp, _) ← protoOf p
+    let ty ← Ty.parse ty
+    let v ← Val.parse v
+    let m := match Model.Thrift.marshalU mp ty v with
+      | .ok b => showRes ty (Model.Thrift.unmarshalU mp false ty b)
+      | _ => "marshal-err"
+    pure (m, "-", String.intercalate "," (classes mp ty v))
   | "thrift.decode", [p, strict, ty, h] => do
     let (mp, _) ← protoOf p
     let ty ← Ty.parse ty
     let b ← fromHex h
-    pure (showRes ty (Model.Thrift.unmarshal mp (strict == "1") ty b), "-", "")
+    pure (showRes ty (Model.Thrift.unmarshalU mp (strict == "1") ty b), "-", "")
   | "thrift.decode", [p, strict, tys, h, want] => do
     let (m, s, _) ← handle "thrift.decode" [p, strict, tys, h]
     let (mp, _) ← protoOf p
